@@ -10,6 +10,7 @@ MODULE = "TraceGrammar"
 
 
 def generate(rng, tier, shard, nshards):
+    event = gops.variant_event(rng)
     n = 60 if tier == "quick" else 600
     for gi in range(n):
         srn, shape = [("Rat", "acyclic"), ("Sat3", "any"), ("Rat", "acyclic"), ("Bool", "any"), ("Rat", "nocycle")][gi % 5]
@@ -30,12 +31,12 @@ def generate(rng, tier, shard, nshards):
         elif gi % 3 == 2:
             base["pre"] = [rng.choice(["agenda", "treesum", "naive", "agenda_maxiter", "treesum_tol", "agenda_tol"]) for _ in range(rng.randint(1, 2))]
             feat = feat + "+history"
-        yield gops.event("addeos", dict(base, L=3), site="add_EOS", feat=feat)
+        yield event("addeos", dict(base, L=3), site="add_EOS", feat=feat)
         if gi % 2 == 0:      # a caller-chosen end-of-sequence symbol (a character, a word, a token id)
-            yield gops.event("addeos", dict(base, L=3, eos=rng.choice(["u0024", "end", "<7>"])), site="add_EOS(eos=...)",
+            yield event("addeos", dict(base, L=3, eos=rng.choice(["u0024", "end", "<7>"])), site="add_EOS(eos=...)",
                              feat=feat + "+custom-eos")
         if srn == "Rat" and shape == "acyclic":
-            yield gops.event("normalize", dict(base, L=3), site="locally_normalize", feat=feat)
+            yield event("normalize", dict(base, L=3), site="locally_normalize", feat=feat)
 
 
 def chart_events(rng, tier):
